@@ -222,7 +222,7 @@ def run_instances(sh, insts, nstates, seed):
         if inst['mn'] in ('bsf', 'bsr', 'shld', 'shrd', 'div', 'idiv'):
             undef = set(FLAGS) - ({'zf'} if inst['mn'] in ('bsf', 'bsr') else set())
         o0 = outputs(cpu0, undef, sse)
-        fam = 'MMX-SSE' if sse else re.sub(r'^(set|cmov|j)(' + '|'.join(c04.CC) + ')$', r'\1cc', inst['mn'])
+        fam = ('MMX-SSE:' + re.sub(r'(ps|pd|ss|sd)$', '#', inst['mn'])) if sse else re.sub(r'^(set|cmov|j)(' + '|'.join(c04.CC) + ')$', r'\1cc', inst['mn'])
         form = inst['form']
         witnessed = 0
         wit = {'text': inst['text'], 'code': g.hex(), 'regs': base['regs'], 'flags': base['flags'], 'hot': base['hot'].hex(), 'fp': [base['fp'][0].hex(), base['fp'][1].hex()] if base['fp'] else None}
